@@ -16,7 +16,7 @@ from sim.terms import EX, T, key, u
 
 ID = "C10"
 LEVEL = "exploration"
-TIERS = {"quick": {"runs": 1000}, "thorough": {"runs": 30000, "wall_cap": 3300}}
+TIERS = {"quick": {"runs": 4000, "wall_cap": 600}, "thorough": {"runs": 100000, "wall_cap": 3300}}
 RULE = (
     "each evaluation is one seeded client session of 1-5 update requests (1-3 operations each: INSERT DATA, DELETE DATA, DELETE WHERE, "
     "DELETE/INSERT/both ... WHERE with WITH / USING / USING NAMED / GRAPH <g> / GRAPH ?g in templates and pattern, CLEAR/DROP "
@@ -83,6 +83,10 @@ def _pattern(g, dataset, depth=0):
         return {"t": "bgp", "triples": [[V("s"), V("pp"), V("o")]]}, ["s", "pp", "o"]
     if k == "graph":
         sub, vs = _pattern(g, dataset, depth + 1)
+        if g.chance(0.35):
+            # an OPTIONAL (or a second pattern) evaluated inside the GRAPH scope after the first solution was produced
+            sub = {"t": "optional", "a": {"t": "bgp", "triples": [[V("s"), g.pick(PREDS), V("o")]]}, "b": {"t": "bgp", "triples": [[V(g.choice(["s", "o"])), g.pick(PREDS), V("opt")]]}, "filter": None}
+            vs = ["s", "o", "opt"]
         if sub["t"] == "graph":
             sub = {"t": "bgp", "triples": [[V("s"), g.pick(PREDS), V("o")]]}
             vs = ["s", "o"]
